@@ -42,6 +42,7 @@ static void check_case(vg::Src& s, vh::Ctx& c)
 {
     FlowOpts o;
     o.grid.max_side = c.arg > 0 ? static_cast<size_t>(c.arg) : 12;
+    o.grid.large_side = c.arg >= 16 ? 72 : 40;  // ~3% large grids
     o.grid.mesh_max_side = 7;
     o.every_component = !s.chance(50);
     FlowCase fc = gen_flow_case(s, o);
